@@ -168,3 +168,56 @@ def run(ctx):
     c12._ownership(ctx, prog, A)
     codecrules.unrle_walk(ctx, prog, 'C08', only=('space', 'read'))
     c11.ring_rule(ctx, prog, pfx='C08')
+    tt_dump_bound(ctx, prog)
+    # the run-length collector writes only inside the block (abstract walk of collect()/encode(), shared with C04)
+    from props import c04
+    ent = c04.collect_rule(ctx, prog, pfx='C08', only=('capacity', 'input', 'fourth', 'assert'))
+    c04.flush_rule(ctx, prog, ent, pfx='C08')
+
+
+def tt_dump_bound(ctx, prog, pfx='C08'):
+    """retrieve() writes decoded symbols through the cursor `tt` in run-dump loops; every such store lies behind a
+    test `run > tt_limit - tt` that leaves with an error when the run does not fit into what is left of the
+    MAX_BLOCK_SIZE-word array -- the space left is computed from the cursor itself, not from a saved count"""
+    from prov import cmp_norm, peel_cond
+    f = prog.func('decode', 'retrieve')
+    P = Prov(prog, f)
+    sites = []
+    for i in f.insns():
+        if i.op == 'store' and i.extra.get('vty') == ('int', 32):
+            a = P.addr(i.ops[1])
+            if a[1][0] == 'V' and strip_casts(a[1][1])[0] == 'phi' and not a[2] and \
+                    strip_casts(a[1][1])[2].ty and strip_casts(a[1][1])[2].ty[0] == 'ptr':
+                sites.append((i, strip_casts(a[1][1])))
+    ctx.floor(pfx + ' retrieve(): stores through the tt cursor', len(sites), 3)
+
+    def is_space_left(e):
+        e = strip_casts(e)
+        if e[0] == 'bin' and e[1] in ('sdiv', 'udiv', 'ashr', 'lshr'):
+            e = strip_casts(e[2])
+        if e[0] == 'bin' and e[1] == 'sub':
+            hi, lo = strip_casts(e[2]), strip_casts(e[3])
+            return hi[0] == 'phi' and lo[0] == 'phi' and hi[2].ty and hi[2].ty[0] == 'ptr' and lo[2].ty and \
+                lo[2].ty[0] == 'ptr'
+        return False
+    for i, cur in sites:
+        ok = False
+        for blk, cond, pol in rules.guards(f, P, i.block.name):
+            core, p2 = peel_cond(cond)
+            cn = cmp_norm(strip_casts(core))
+            if cn is None:
+                continue
+            pred, x, y = cn
+            eff = pol == p2
+            if is_space_left(y) and ((pred in ('ugt', 'sgt') and not eff) or (pred in ('ule', 'sle') and eff)):
+                ok = True
+            if is_space_left(x) and ((pred in ('ult', 'slt') and not eff) or (pred in ('uge', 'sge') and eff)):
+                ok = True
+        ctx.ob(pfx + '.tt_bound', 'retrieve(): the run dumped through the tt cursor at line %s was tested against the '
+               'space left in the array (limit - cursor)' % i.line, f.loc(i), ok,
+               '' if ok else 'no guard of the form run > (tt_limit - tt) on the way to this store')
+    # the limit is the array's end: ds->tt + MAX_BLOCK_SIZE
+    lim = [i for i in f.insns() if i.op == 'getelementptr' and len(i.ops) == 2 and i.ops[1] == ('int', 900000)]
+    ctx.ob(pfx + '.tt_bound', 'retrieve(): tt_limit is ds->tt + MAX_BLOCK_SIZE (the allocation of decoder_init())',
+           f.loc(lim[0]) if lim else f.loc(), bool(lim) and all('.tt' in render(P.expr(i.ops[0])) for i in lim),
+           '; '.join(render(P.expr(i.ops[0]))[:40] for i in lim))
